@@ -14,6 +14,10 @@ OUTSIDE = ["AES-256-GCM functional correctness (GHASH algebra)", "AEGIS AES-NI u
            "SIMD/asm back ends of the cores (see C03/C04/C10)"]
 
 
+import os
+BOXDBG = {k: 1 for k in os.environ.get('BOXDBG', '').split(',') if k}
+
+
 def obligations(tier):
     obs = []
     full_m = list(range(0, 41))
@@ -30,4 +34,29 @@ def obligations(tier):
                               tier="quick" if q else "thorough", family="aead-" + VNAME[v],
                               desc="encrypt(_detached) output and MAC input == spec; combined == detached; decrypt(encrypt(m)) == m",
                               bounds="all key/nonce/message/ad bytes; (mlen, adlen) enumerated: quick 9x6 boundary pairs, thorough every pair in 0..40 x 0..33"))
+    for v in (0, 1):
+        for ml in range(0, 81):
+            q = ml in (0, 1, 15, 16, 17, 31, 32, 33, 48, 64, 65, 80)
+            obs.append(Ob("secretbox-%s-m%d" % (SBNAME[v], ml), "C01/secretbox.c", units=SB_UNITS[v] + GLUE_UNITS,
+                          stubs=GLUE_STUBS, defs={"SBVAR": v, "MLEN": ml}, unwind=130, timeout=300,
+                          tier="quick" if q else "thorough", family="secretbox-" + SBNAME[v],
+                          desc="secretbox detached/easy/NaCl forms == spec (one-time key = keystream[0..32], message from byte 32), all forms agree, open(box(m)) == m",
+                          bounds="all key/nonce/message bytes; mlen enumerated: quick 12 boundary values, thorough every 0..80 (crosses the 32-byte first-block boundary and block 1)"))
+    for v in (0, 1):
+        for part in (1, 2, 3, 4):
+            if part == 3 and v == 1:
+                continue
+            for ml in range(0, 49):
+                q = ml in (0, 1, 16, 31, 32, 33, 48)
+                if ml == 16:
+                    obs.append(Ob("box-%s-p%d-dhfail" % (SBNAME[v], part), "C01/box.c", units=BOX_UNITS[v] + GLUE_UNITS,
+                                  stubs=BOX_STUBS, defs={"SBVAR": v, "MLEN": ml, "DH_FAIL": 1, "PART": part}, unwind=130,
+                                  timeout=600, family="box-seal-" + SBNAME[v],
+                                  desc="box_easy / beforenm / seal return -1 when X25519 reports failure",
+                                  bounds="all inputs with an all-zero shared point (abstract X25519)"))
+                obs.append(Ob("box-%s-p%d-m%d" % (SBNAME[v], part, ml), "C01/box.c", units=BOX_UNITS[v] + GLUE_UNITS,
+                              stubs=BOX_STUBS, defs={"SBVAR": v, "MLEN": ml, "PART": part}, unwind=130, timeout=600,
+                              tier="quick" if q else "thorough", family="box-seal-" + SBNAME[v],
+                              desc="crypto_box easy/detached/afternm (part 1), recipient round trips under DH commutativity (2), NaCl padded form (3), sealed box layout/nonce/round trip (4) == secretbox spec under beforenm key",
+                              bounds="all secret keys/nonce/message/ephemeral bytes; mlen enumerated (quick 7 values, thorough 0..48)"))
     return obs
